@@ -239,6 +239,10 @@ def worker(spec):
         T.has_multiline = False
         T.has_nonascii = False
         st = T.stack(0)
+        if not st.frames:
+            res.count("frameless_toplevel_stacks")
+            if st.leaf is not None:
+                res.count("frameless_toplevel_stacks_with_leaf")
         for asc, ctx, hid in itertools.product((False, True), (True, False), (True, False)):
             o = dict(ctx=ctx, hidden=hid)
             res.evaluations += 1
